@@ -197,7 +197,7 @@ var (
 	EmailRe     = regexp.MustCompile(`^\w+([-+.]\w+)*@\w+([-.]\w+)*\.\w+([-.]\w+)*$`)
 	IdCardRe    = regexp.MustCompile(`(^\d{15}$)|(^\d{18}$)|(^\d{17}(\d|X|x)$)`)
 	IntRe       = regexp.MustCompile(`^\d+$`)
-	FloatRe     = regexp.MustCompile(`^\d+.\d+$`)
+	FloatRe     = regexp.MustCompile(`^\d+\.\d+$`)
 
 	// Deprecated
 	YearRe = regexp.MustCompile(`^\d{4}$`)
